@@ -77,6 +77,7 @@ type vfWorld struct {
 	routers []*Router
 	fronts  []*vfFront
 	raws    map[string]*vfRawTarget
+	sched   *vfSched
 	holds   map[string]chan struct{}
 	maxIvl  time.Duration
 	maxWait time.Duration
@@ -215,6 +216,9 @@ func (w *vfWorld) close() {
 		return
 	}
 	w.closed = true
+	if w.sched != nil {
+		w.sched.stop() // nobody stays parked at a hook
+	}
 	verifPointFn = nil
 	w.onLog = nil
 	close(w.closeCh)
